@@ -7,7 +7,7 @@ import numpy as np
 
 from .. import gen
 
-CLASSES = ["uniform", "clustered", "collinear", "tied", "converged", "tied_best"]
+CLASSES = ["uniform", "clustered", "collinear", "tied", "converged", "tied_best", "converged_offset"]
 BAND = 1e-9
 
 
@@ -54,9 +54,11 @@ def gen_population(rng, cls, n, d):
         idxs = list(range(n))
         rng.shuffle(idxs)
         pts = [[a[j] + step * t * dirv[j] for j in range(d)] for t in idxs]
-    elif cls == "converged":
+    elif cls in ("converged", "converged_offset"):
         c = [rng.uniform(-5, 5) for _ in range(d)]
-        scale = rng.choice([1e-9, 1e-10, 1e-12])
+        if cls == "converged_offset":
+            c = [x * rng.choice([1.0, 300.0]) for x in c]  # possibly far from the origin
+        scale = rng.choice([1e-9, 1e-10, 1e-12]) if cls == "converged" else rng.choice([1e-4, 1e-5, 1e-6])
         seen = set()
         while len(pts) < n:
             p = tuple(c[j] + rng.gauss(0, scale) for j in range(d))
@@ -71,6 +73,11 @@ def gen_population(rng, cls, n, d):
     if cls == "converged":
         c0 = pts[0]
         fits = [sum(((x - y) * 1e9) ** 2 for x, y in zip(p, c0)) + rng.random() * 1e-3 for p in pts]
+    if cls == "converged_offset":
+        # a basin whose optimum value is not 0: pairwise distinct fitness values that differ only far beyond the 9th digit
+        c0 = pts[0]
+        off = rng.choice([1.0, 7.5, 50.0, -3.25])
+        fits = [off + sum((x - y) ** 2 for x, y in zip(p, c0)) for p in pts]
     if cls == "tied":
         mode = rng.choice(["pairs", "all", "levels"])
         if mode == "pairs":
@@ -253,7 +260,7 @@ def run_case(desc):
         cov["several_tied_best_returned"] += 1
     if 2 <= len(must | may) < K:
         nontrivial.append([cls, n, d, factor, trunc])
-    if cls == "converged":
+    if cls in ("converged", "converged_offset"):
         cov["converged_populations"] += 1
     # (3) metamorphic re-runs (only decided when the reference result is unambiguous: no band, unique best)
     if not may and len(tied_best) == 1 and not violations:
@@ -282,7 +289,7 @@ def run_case(desc):
             same("permutation", [genomes[i] for i in p], [fits[i] for i in p], maximize, perm=p)
         same("mirroring (f,max)<->(-f,min)", genomes, [-f for f in fits], not maximize)
         same("scaling by a power of two", [[x * 4.0 for x in g] for g in genomes], fits, maximize)
-        if cls != "converged":
+        if cls not in ("converged", "converged_offset"):
             t = [rng.uniform(-3, 3) for _ in range(d)]
             same("translation", [[x + t[j] for j, x in enumerate(g)] for g in genomes], fits, maximize)
             same("scaling by an arbitrary factor", [[x * 1.7 for x in g] for g in genomes], fits, maximize)
